@@ -8,8 +8,8 @@
    float printing is an oracle (DESIGN.md 4.4); the comparison replaces the marker by the text the implementation
    prints for that pattern (lib/props/c06.py float_text).
 
-   Not wired into a driver: Extract/Cmd_serde.v `run_cmd` (eng-c07) can dispatch a command `text` to `cmd_text`; the
-   ad-hoc comparison of 2026-09-29 ran it under vm_compute. *)
+   Its own driver: Extract/Extract_c07text.v -> driver/driver_c07text (command `text`); the block at the end of
+   lib/props/c07.py compares its bytes with the implementation's on every run of `./check C07`. *)
 From TV Require Import Base.Prelude Model.Numbers Model.Tree Model.Encode Model.Build.
 From TV Require Import Spec.SerdeData Model.Ser Model.SerFmt Model.SerDoc Extract.Show Extract.Cmd_serde.
 Require Import String.
@@ -37,4 +37,10 @@ Definition cmd_text (tys vals : bytes) : bytes :=
     join (str " ") [str "tp=" ++ route_text TomlString t v; str "tpp=" ++ route_text TomlStringPretty t v;
                     str "ep=" ++ route_text EditString t v; str "epp=" ++ route_text EditStringPretty t v]
   | _, _ => str "BADCASE"
+  end.
+
+Definition run_cmd (name : bytes) (args : list bytes) : bytes :=
+  match args with
+  | [tys; vals] => if is name "text" then cmd_text tys vals else str "unknown-command"
+  | _ => str "bad-args"
   end.
